@@ -98,11 +98,73 @@ struct Gen
             plan.items.push_back(std::move(e));
     }
 
+    // Object lifecycle events: the receiver's decoder, a capture module's encoder or the status tracker is copied, moved,
+    // assigned over a used object, swapped, self-assigned or forked (OP_LIFE) between two operations of the run, and
+    // decoded packets are handed on as copies (cfg plife). Values stay values: no model changes.
+    void lifePass()
+    {
+        const std::string& pr = plan.prop;
+        const bool decProps = pr == "C01" || pr == "C02" || pr == "C04" || pr == "C05" || pr == "C06" || pr == "C17" || pr == "C18" || pr == "C16" || pr == "C03";
+        const bool encProps = pr == "C01" || pr == "C07" || pr == "C08" || pr == "C09" || pr == "C10";
+        const bool statProps = pr == "C16";
+        if (!decProps && !encProps && !statProps)
+            return;
+        if (plan.cfgGet("wraprun", 0) || plan.cfgGet("nolife", 0))
+            return;
+        if ((decProps || statProps) && rng.chance(1, 3))
+            cfg().set("plife", static_cast<int64_t>(1 + rng.below(1000000)));
+        if (pr == "C01" && plan.cfgGet("rx", 1) && rng.chance(1, 3))
+            cfg().set("relay", static_cast<int64_t>(1 + rng.below(1000000)));
+        if (!rng.chance(1, 3))
+            return;
+        std::vector<size_t> ops;
+        std::vector<int64_t> encNodes;
+        for (size_t i = 0; i < plan.items.size(); ++i)
+        {
+            if (plan.items[i].tag == "op")
+                ops.push_back(i);
+            if (plan.items[i].tag == "node" && plan.items[i].get("type", 2) == 1)
+                encNodes.push_back(plan.items[i].get("id"));
+        }
+        if (ops.size() < 2)
+            return;
+        const size_t n = 1 + rng.below(4);
+        std::vector<Item> extra;
+        for (size_t q = 0; q < n; ++q)
+        {
+            // right behind a randomly chosen operation (the object then has that operation's state in it)
+            const Item& at = plan.items[ops[rng.below(ops.size())]];
+            Item o("op");
+            o.set("k", OP_LIFE).set("t", at.get("t") + static_cast<int64_t>(rng.below(3)));
+            int obj = 0;
+            std::vector<int> cand;
+            if (decProps && plan.cfgGet("rx", 1))
+                cand.push_back(0);
+            if (encProps && !encNodes.empty())
+                cand.push_back(1);
+            if (statProps)
+                cand.push_back(2);
+            if (cand.empty())
+                return;
+            obj = cand[rng.below(cand.size())];
+            o.set("obj", obj);
+            if (obj == 1)
+                o.set("node", encNodes[rng.below(encNodes.size())]);
+            o.set("how", static_cast<int64_t>(1 + rng.below(9)));
+            if (at.has("th"))
+                o.set("th", at.get("th"));
+            extra.push_back(o);
+        }
+        for (auto& e : extra)
+            plan.items.push_back(e);
+    }
+
     // ops are executed in plan order; sort them by their time so that the intended interleaving happens
     Plan finish()
     {
         if (plan.prop != "C06" || plan.cfgGet("sweep", 0) == 0)
             tweakPass();
+        lifePass();
         std::stable_sort(plan.items.begin(), plan.items.end(), [](const Item& a, const Item& b) {
             const bool ao = a.tag == "op", bo = b.tag == "op";
             if (ao != bo)
